@@ -101,17 +101,22 @@ impl ISocketConnection for ScaConnectionIface {
       Err(TrySendError::Full(returned)) if self.sndtimeo == Some(Duration::ZERO) => {
         Err((returned, ZmqError::ResourceLimitReached))
       }
-      Err(TrySendError::Full(returned)) => match self.sndtimeo {
-        None => match self.pipe_sender.send(returned).await {
-          Ok(()) => Ok(()),
-          Err(_) => Err((FrameBatch::new(), ZmqError::ConnectionClosed)),
-        },
-        Some(duration) => match timeout(duration, self.pipe_sender.send(returned)).await {
-          Ok(Ok(())) => Ok(()),
-          Ok(Err(_)) => Err((FrameBatch::new(), ZmqError::ConnectionClosed)),
-          Err(_) => Err((FrameBatch::new(), ZmqError::Timeout)),
-        },
-      },
+      Err(TrySendError::Full(returned)) => {
+        // `send()` consumes the batch even when it does not complete; keep a (ref-counted)
+        // copy so that the refused message can be handed back to the caller.
+        let refused = returned.clone();
+        match self.sndtimeo {
+          None => match self.pipe_sender.send(returned).await {
+            Ok(()) => Ok(()),
+            Err(_) => Err((refused, ZmqError::ConnectionClosed)),
+          },
+          Some(duration) => match timeout(duration, self.pipe_sender.send(returned)).await {
+            Ok(Ok(())) => Ok(()),
+            Ok(Err(_)) => Err((refused, ZmqError::ConnectionClosed)),
+            Err(_) => Err((refused, ZmqError::Timeout)),
+          },
+        }
+      }
       Err(TrySendError::Sent(_)) => unreachable!(),
     }
   }
